@@ -346,6 +346,16 @@ def run(ctx):
     ctx.ob("C07.d", con.qual, se_ok, "_connect sets _connection_expiration = now + max_connection_lifetime when configured", func=con.qual, file=file,
            construct="self._connection_expiration = ...", detail={"stored": show(setexp)[:120] if setexp else None},
            fail="_connect does not arm the connection lifetime")
+    # ... in the atomic section that stores the new protocol: a cancellation between the two (the caller's timeout lands in an await added
+    # there) leaves a connection in use whose configured lifetime is never enforced - or, worse, enforced against the previous connection's expiry
+    from ..atomic import sections, stores_self_attr
+    sec = sections(prog, con, lambda n: stores_self_attr(n, ("_protocol",)), lambda n: stores_self_attr(n, ("_connection_expiration",)))
+    ctx.count("lifetime_arming_sites", len(sec))
+    for n_, dirty in sec.items():
+        ctx.ob("C07.d", con.qual, not dirty, "the connection lifetime is armed in the atomic section that stores the new connection", func=con.qual, file=file, node=n_,
+               detail={"suspension_points": dirty},
+               fail=f"`{norm(n_)[:50]}` runs only after `{dirty[0] if dirty else ''}`: a cancellation there leaves the new connection with the previous "
+                    "connection's expiry (or none), so the configured lifetime does not bound it")
     from ..shared import check as shared_check
     shared_check(ctx, "C07.b", [prog.cls(V2), prog.cls(V3), prog.cls(LAN)], "the protocol and connection classes")
     # ---- C07.e one exchange at a time per connection: the device layer awaits its sends one after another.  Two sends running concurrently on
